@@ -417,8 +417,8 @@ func init() {
 				// power loss under mmap (the unsynced tail of a mapped file is cut), and a SECOND crash after the
 				// recovered database has written on
 				add("mmap-powerloss-k2", merge(base, p("k", 2, "ops", opPut|opDelete|opSync, "io", 1, "after", 1, "dfs_lo", 60, "dfs_hi", 100)))
-				add("mmap-powerloss-multiblock-then-crash-again", merge(base, p("k", 2, "ops", opPut|opSync, "io", 1, "vlens", 3, "vbig", 40, "after", 1, "aftercrash", 1)))
-				add("std-powerloss-then-crash-again", merge(base, p("k", 2, "ops", opPut|opDelete, "vlens", 3, "vbig", 40, "after", 1, "aftercrash", 1)))
+				add("mmap-powerloss-multiblock-then-crash-again", merge(base, p("k", 2, "ops", opPut|opSync, "io", 1, "vlens", 4, "vbig", 40, "vbig2", 20, "after", 1, "aftercrash", 1, "afterval", 1)))
+				add("std-powerloss-then-crash-again", merge(base, p("k", 2, "ops", opPut|opDelete, "vlens", 4, "vbig", 40, "vbig2", 20, "after", 1, "aftercrash", 1, "afterval", 1)))
 				add("mmap-process-death-k2", merge(base, p("k", 2, "ops", opPut|opDelete, "io", 1, "powerloss", 0, "after", 1, "dfs_lo", 60, "dfs_hi", 100)))
 				add("btree-s2-nosync-k2", merge(base, p("k", 2, "ops", opPut|opDelete|opSync, "after", 1, "index", 1, "shards", 2, "vlens", 1)))
 				add("skiplist-s3-always-k2", merge(base, p("k", 2, "ops", opPut|opDelete, "sync", syncAlways, "index", 2, "shards", 3, "vlens", 1, "after", 1)))
